@@ -216,12 +216,18 @@ static std::string digest(Session& S, Torrent* T, uint16_t port) {
   torrent::PeerConnectionBase* pcb = S.find_connection(T, port);
   if (pcb == nullptr) return "closed=1";
   std::string bits;
-  const torrent::Bitfield* bf = pcb->m_peer_chunks.bitfield();
+  auto* bf = pcb->m_peer_chunks.bitfield();
   for (uint32_t i = 0; i < bf->size_bits(); i++) bits.push_back(bf->get(i) ? '1' : '0');
   std::ostringstream o;
   o << "closed=0 bits=" << bits << " q=" << pcb->m_up_choke.queued() << " u=" << pcb->m_up_choke.unchoked()
     << " upq=" << S.dump_upload_queue(pcb) << " du=" << pcb->m_down_unchoked << " st=" << state_str(pcb)
     << " buf=" << pcb->m_down->buffer()->remaining();
+  {
+    // head of the unread bytes (for the oracle's "complete message left undispatched" clause; not compared with the model)
+    auto* b = pcb->m_down->buffer();
+    size_t n = std::min<size_t>(b->remaining(), 16);
+    o << " pend=" << hex((const char*)b->position(), n);
+  }
   return o.str();
 }
 
@@ -439,6 +445,7 @@ static std::string run_free(Session& S, std::map<std::string, std::string>& kv) 
   if (!P.take_handshake(hs)) return "FREE || ERR:handshake";
   uint16_t port = P.local_port();
   std::vector<std::array<uint32_t, 3>> reqs;
+  std::string endgame_note;
   auto collect = [&]() {
     WireMsg m;
     while (P.next_message(m))
@@ -457,6 +464,60 @@ static std::string run_free(Session& S, std::map<std::string, std::string>& kv) 
     else if (k == 'S') { pump(S, {&P}); collect(); }
     else if (k == 'U') { P.send_bytes(WirePeer::unchoke()); pump(S, {&P}); collect(); }
     else if (k == 'T') { S.advance_us(std::stoll(arg) * 1000000ll); pump(S, {&P}); collect(); }
+    else if (k == 'G') {
+      // endgame takeover, G<a>:<b>:<c>: a SECOND peer Q (all pieces, unchokes) is asked for the same blocks (4 pieces:
+      // the delegator is aggressive from the start). P sends the header of a common block X + a bytes, Q the header of X +
+      // b bytes (b > a: Q's non-leading transfer compares equal, overtakes and becomes leader in the middle of the
+      // block), then Q sends c more bytes in a later read, then both send the rest.
+      unsigned a = 0, b = 0, c = 0;
+      if (sscanf(arg.c_str(), "%u:%u:%u", &a, &b, &c) != 3) return "FREE || BADCASE";
+      WirePeer Q;
+      if (!connect_hostile(S, Q, T, rc.healthy.get())) return "FREE || ERR:connect2";
+      Q.send_bytes(WirePeer::handshake(T->info_hash, peer_id(g_conn_no)) + WirePeer::bitfield("1111"));
+      pump(S, {&P, &Q});
+      HandshakeIn hq;
+      if (!Q.take_handshake(hq)) return "FREE || ERR:handshake2";
+      P.send_bytes(WirePeer::unchoke());
+      Q.send_bytes(WirePeer::unchoke());
+      pump(S, {&P, &Q});
+      collect();
+      std::vector<std::array<uint32_t, 3>> rq;
+      { WireMsg m; while (Q.next_message(m)) if (m.id == WirePeer::REQUEST && m.body.size() == 12) rq.push_back({m.u32(0), m.u32(4), m.u32(8)}); }
+      bool found = false;
+      std::array<uint32_t, 3> X{};
+      for (auto& r1 : reqs) { for (auto& r2 : rq) if (r1 == r2) { X = r1; found = true; break; } if (found) break; }
+      if (!found && !reqs.empty()) {
+        // P delivers what it was asked for; the only thing left to ask P for is then what Q was asked for
+        auto r0 = reqs[0];
+        reqs.clear();
+        P.send_bytes(WirePeer::piece(r0[0], r0[1], T->range(r0[0], r0[1], r0[2])));
+        pump(S, {&P, &Q});
+        S.settle([&]() { return false; }, 20);
+        pump(S, {&P, &Q});
+        collect();
+        { WireMsg m; while (Q.next_message(m)) if (m.id == WirePeer::REQUEST && m.body.size() == 12) rq.push_back({m.u32(0), m.u32(4), m.u32(8)}); }
+        for (auto& r1 : reqs) { for (auto& r2 : rq) if (r1 == r2) { X = r1; found = true; break; } if (found) break; }
+      }
+      if (!found) { endgame_note = " nocommon(" + std::to_string(reqs.size()) + "," + std::to_string(rq.size()) + ")"; continue; }
+      uint32_t len = X[2];
+      a = std::min(a, len); b = std::min(std::max(b, a), len); c = std::min(c, len - b);
+      std::string data = T->range(X[0], X[1], len);
+      std::string hdr = WirePeer::raw(9 + len, std::string(1, char(7)) + WirePeer::be32(X[0]) + WirePeer::be32(X[1]));
+      P.send_bytes(hdr + data.substr(0, a));
+      pump(S, {&P, &Q});
+      Q.send_bytes(hdr + data.substr(0, b));
+      pump(S, {&P, &Q});
+      Q.send_bytes(data.substr(b, c));
+      pump(S, {&P, &Q});
+      Q.send_bytes(data.substr(b + c));
+      pump(S, {&P, &Q});
+      P.send_bytes(data.substr(a));
+      pump(S, {&P, &Q});
+      endgame_note = " takeover(" + std::to_string(X[0]) + ":" + std::to_string(X[1]) + ":" + std::to_string(len) + ")";
+      reqs.clear();
+      Q.close_all();
+      pump(S, {&P});
+    }
     else if (k == 'A') {
       int v = std::stoi(arg);
       collect();
@@ -493,7 +554,7 @@ static std::string run_free(Session& S, std::map<std::string, std::string>& kv) 
   S.settle([&]() { return false; }, 30);
   pump(S, {&P});
   bool alive = S.find_connection(T, port) != nullptr;
-  std::string res = std::string("FREE || alive=") + (alive ? "1" : "0") + " done=" + T->completed_bits();
+  std::string res = std::string("FREE || alive=") + (alive ? "1" : "0") + " done=" + T->completed_bits() + endgame_note;
   // healthy peer: piece 0 is complete in this torrent too
   res += " healthy=" + healthy_check(S, rc);
   P.close_all();
@@ -503,6 +564,44 @@ static std::string run_free(Session& S, std::map<std::string, std::string>& kv) 
   return res;
 }
 
+// mode=probe role=<r> np=<n> keys=h:<len>:<id>,x:<ty>:<elen>,...   -> "PROBE <key>=<0|1> ..."
+// Which message headers make THIS implementation close the connection (what the property leaves open): each key is
+// probed on a fresh connection by delivering just the header in one segment -- 5 bytes <len><id> for h-keys (nothing
+// that depends on a message body can have been decided yet), 6 bytes <elen+2><20><ty> for x-keys (payload length 0
+// is probed as 1: a complete message would involve the handler) -- and looking whether the connection is closed.
+static std::string run_probe(Session& S, std::map<std::string, std::string>& kv) {
+  std::string out = "PROBE";
+  const std::string& keys = kv["keys"];
+  size_t p = 0;
+  while (p < keys.size()) {
+    size_t q = keys.find(',', p);
+    std::string key = keys.substr(p, q == std::string::npos ? std::string::npos : q - p);
+    p = q == std::string::npos ? keys.size() : q + 1;
+    if (key.size() < 5) continue;
+    unsigned long long a = 0, b = 0;
+    if (sscanf(key.c_str() + 2, "%llu:%llu", &a, &b) != 2) { out += " " + key + "=?"; continue; }
+    std::string stream;
+    if (key[0] == 'h') stream = WirePeer::be32((uint32_t)a) + std::string(1, char(b));
+    else { uint64_t elen = b == 0 ? 1 : b; stream = WirePeer::be32((uint32_t)(elen + 2)) + std::string(1, char(20)) + std::string(1, char(a)); }
+    std::map<std::string, std::string> k2 = {{"role", kv["role"]}, {"np", kv["np"]}, {"bits", "-"}, {"pre", "0"}, {"ho", "-"},
+                                            {"stream", hex(stream)}, {"segs", "k0:" + std::to_string(stream.size())}};
+    Seg sg; sg.cap = 0; sg.lens.push_back((long)stream.size());
+    std::string d2, d1;
+    if (kv["role"] == "iseed" || kv["role"] == "meta") {
+      RoleCtx rc;
+      make_role(S, rc, kv["role"], std::stoul(kv["np"]));
+      d1 = run_one(S, rc, k2, sg, d2);
+      rc.healthy->close_all();
+      pump(S, {});
+      S.remove(rc.T);
+    } else {
+      d1 = run_one(S, get_role(S, kv["role"], std::stoul(kv["np"])), k2, sg, d2);
+    }
+    out += " " + key + "=" + (d1.rfind("closed=1", 0) == 0 ? "1" : d1.rfind("closed=0", 0) == 0 ? "0" : "?");
+  }
+  return out;
+}
+
 static std::string run_case(Session& S, const std::string& line) {
   std::map<std::string, std::string> kv;
   for (auto& tok : split_ws(line)) {
@@ -510,18 +609,30 @@ static std::string run_case(Session& S, const std::string& line) {
     if (e != std::string::npos) kv[tok.substr(0, e)] = tok.substr(e + 1);
   }
   if (kv["mode"] == "free") return run_free(S, kv);
+  if (kv["mode"] == "probe") return run_probe(S, kv);
   if (!kv.count("role") || !kv.count("stream") || !kv.count("segs")) return "BADCASE";
   return run_exact(S, kv);
 }
 
+static void on_alarm(int) {
+  static const char msg[] = "HANG per-case watchdog (30 s) expired\n";
+  ssize_t r = ::write(1, msg, sizeof msg - 1);
+  (void)r;
+  _exit(4);
+}
+
 int main() {
   std_setup();
+  signal(SIGALRM, on_alarm);
   std::unique_ptr<Session> S;
   std::string line;
   while (std::getline(std::cin, line)) {
     try {
       if (!S) S = std::make_unique<Session>();
-      std::cout << run_case(*S, line) << "\n";
+      alarm(30);
+      std::string res = run_case(*S, line);
+      alarm(0);
+      std::cout << res << "\n";
     } catch (torrent::internal_error& e) {
       std::cout << "ERR:internal " << e.what() << "\n";
       std::cout.flush();
